@@ -427,6 +427,14 @@ def scaledBound (lower : Bool) (b : Blk) (c i : Nat) : Option XVal :=
 def histEndingAt (pt : List Rat) (pv : List (Option Rat)) (t0 : Rat) (v0 : Option Rat) : Hist :=
   { times := pt ++ [t0], vals := pv ++ [v0] }
 
+/-- what member `m`'s history sweep does to its `k`-th pin variable (position in
+    `states ++ algs ++ controls`): `some (some v)` writes `v`, `some none` writes nothing,
+    `none` raises -/
+def memberPin (I : Inst) (m k : Nat) : Option (Option XVal) :=
+  match ((pinVars I).zip (histOf I m ++ List.replicate (pinVars I).length none))[k]? with
+  | some (b, hh) => pinValue I.t0 b hh
+  | none => some none
+
 /-! ## several sources of scalar bounds (user `bounds()`, Modelica `min`/`max` attributes) -/
 
 /-- `m = max(m, m_)` over all sources, starting from −inf -/
